@@ -149,6 +149,9 @@ func fixedScenarios() []fixed {
 	})
 	// connection set-up variants
 	mk("dial-1-digi", func(sc *scenario) { sc.Digis = 1 })
+	mk("dial-early-data", func(sc *scenario) { sc.Seg = "whole"; sc.EarlyData = 3 })
+	mk("dial-early-data-1-digi", func(sc *scenario) { sc.Seg = "whole"; sc.EarlyData = 1; sc.Digis = 1 })
+	mk("dial-early-data-tcp", func(sc *scenario) { sc.Link, sc.Seg, sc.EarlyData = "tcp", "cut0", 4 })
 	mk("dial-ctx-cancelled-after-connect", func(sc *scenario) { sc.CancelCtx = true })
 	mk("dial-ctx-cancelled-after-connect-tcp", func(sc *scenario) { sc.Link, sc.Seg, sc.CancelCtx = "tcp", "cut30", true })
 	mk("dial-2-digis-tcp", func(sc *scenario) { sc.Link, sc.Seg, sc.Digis = "tcp", "cut30", 2 })
@@ -306,6 +309,9 @@ func randomStream(seed int64, i int) scenario {
 		sc.Digis = r.Intn(3)
 	}
 	sc.CancelCtx = sc.Mode != "accept" && sc.Seed%2 == 0
+	if sc.Mode != "accept" && sc.Seed%3 == 0 {
+		sc.EarlyData = 1 + int(sc.Seed/3)%5
+	}
 	sc.MaxFrame = vrt.Pick(r, []int{1, 2, 4, 7})
 	sc.TTLMax = vrt.Pick(r, []int{1, 1, 1, 2, 2, 3})
 	sc.RegX = r.Intn(10) == 0
